@@ -301,6 +301,12 @@ func (tt *TermTable) Bin(op Op, a, b *Term) *Term {
 		if b.IsConst() && b.C == 0 {
 			return a
 		}
+		// a shift by a count saturated at the width equals the shift by the count itself:
+		// op(a, ite(K <=u c, K', c)) = op(a, c) for K, K' >= w
+		if b.Op == OpIte && b.Args[1].IsConst() && b.Args[1].C >= uint64(w) && b.Args[0].Op == OpULe && b.Args[0].Args[0].IsConst() &&
+			b.Args[0].Args[0].C >= uint64(w) && b.Args[0].Args[1] == b.Args[2] {
+			return tt.Bin(op, a, b.Args[2])
+		}
 	}
 	// canonical order for commutative ops: constant last, else by ID
 	switch op {
@@ -522,6 +528,18 @@ func (tt *TermTable) Cmp(op Op, a, b *Term) *Term {
 	}
 	if a == b {
 		return tt.Bool(op == OpULe || op == OpSLe)
+	}
+	// K <=u sext(x)  ⇔  K <=u x  and  K <u sext(x) ⇔ K <u x  for 0 < K <= 2^(w0-1) (a negative x is huge either way);
+	// likewise through zext for K < 2^w0
+	if (op == OpULe || op == OpULt) && a.IsConst() && (b.Op == OpSExt || b.Op == OpZExt) {
+		inner := b.Args[0]
+		lim := uint64(1) << uint(inner.W-1)
+		if b.Op == OpZExt {
+			lim = mask(inner.W)
+		}
+		if a.C > 0 && a.C <= lim {
+			return tt.Cmp(op, tt.BV(a.C, inner.W), inner)
+		}
 	}
 	// unsigned upper bounds known from the shape of a: (x & c) <= c, zext(x) < 2^w
 	if (op == OpULt || op == OpULe) && b.IsConst() {
